@@ -12,7 +12,41 @@ pub fn lanes() -> Vec<Lane> {
         Lane { name: "glob", count: |c| gen::sweep_count(PAT.len(), if c.thorough() { 3 } else { 2 }), run: glob_lane },
         Lane { name: "files", count: |c| if c.thorough() { 100_000 } else { 4_000 }, run: files_lane },
         Lane { name: "not-machine-readable", count: |c| if c.thorough() { 100_000 } else { 8_000 }, run: nmr_lane },
+        Lane { name: "non-utf8-paths", count: |_| (NU_PATTERNS.len() * NU_PATHS.len()) as u64, run: non_utf8_lane },
     ]
+}
+
+/// File names are byte strings: a path that is not valid UTF-8 is still looked up. Only wildcards can match the
+/// undecodable part (patterns are text).
+const NU_PATTERNS: [&str; 5] = ["*", "doc/*", "doc/caf?.txt", "doc/cafe.txt", "*.txt"];
+const NU_PATHS: [&[u8]; 3] = [b"doc/caf\xe9.txt", b"\xff", b"src/\xc3.c"];
+
+fn non_utf8_lane(ctx: &mut Ctx, idx: u64) {
+    use std::os::unix::ffi::OsStrExt;
+    let pattern = NU_PATTERNS[idx as usize % NU_PATTERNS.len()];
+    let bytes = NU_PATHS[idx as usize / NU_PATTERNS.len()];
+    let path = Path::new(std::ffi::OsStr::from_bytes(bytes));
+    // the undecodable byte counts as one character that no literal equals
+    let shown = String::from_utf8_lossy(bytes).to_string();
+    let want = glob_match(&pattern.chars().collect::<Vec<_>>(), &shown.chars().collect::<Vec<_>>());
+    let text = format!("{}\nFiles: {}\nCopyright: c\nLicense: L\n", FORMAT, pattern);
+    let res = guard(text.len() + 64, || {
+        let ll = debian_copyright::lossless::Copyright::from_str(&text).map_err(|e| e.to_string())?;
+        let ly = debian_copyright::lossy::Copyright::from_str(&text).map_err(|e| e.to_string())?;
+        Ok::<_, String>((ll.find_files(path).is_some(), ly.find_files(path).is_some()))
+    });
+    ctx.count("pairs");
+    match res {
+        Err(f) => ctx.violation(&format!("{}|find_files|non-utf8-path", f.class()), json!({"pattern": pattern, "path": shown, "failure": f.json()})),
+        Ok(Err(e)) => ctx.violation("wellformed-copyright-rejected|from_str|non-utf8-path", json!({"input": text, "error": e})),
+        Ok(Ok((a, b))) => {
+            if a != want || b != want {
+                ctx.violation("wrong-match|find_files|non-utf8-path", json!({"pattern": pattern, "path": shown, "expected": want, "lossless": a, "lossy": b}));
+            }
+        }
+    }
+    ctx.distinct_exact += 1;
+    ctx.sample(|| json!({"pattern": pattern, "path_lossy": shown, "expected": want}));
 }
 
 const FORMAT: &str = "Format: https://www.debian.org/doc/packaging-manuals/copyright-format/1.0/\n";
